@@ -495,6 +495,8 @@ impl<'id, N: NodeBase, ET: Tag, const TAG_BITS: u32> Edge<'id, N, ET, TAG_BITS> 
         debug_assert!(self.is_inner());
         let ptr: NonNull<N> = self.all_untagged_ptr().cast();
         std::mem::forget(self);
+        #[cfg(oxidd_verif)]
+        oxidd_core::verif::emit(oxidd_core::verif::site::RELEASE, &[ptr.as_ptr().addr()]);
         // SAFETY: `self` points to an inner node and by the type invariant, we
         // have shared access. Also, `self` forgotten now.
         let _old_rc = unsafe { ptr.as_ref().release() };
@@ -697,6 +699,8 @@ where
             let ptr: NonNull<Self::InnerNode> = edge.all_untagged_ptr().cast();
             // SAFETY: dereferencing untagged edges pointing to inner nodes is safe
             unsafe { ptr.as_ref() }.retain();
+            #[cfg(oxidd_verif)]
+            oxidd_core::verif::emit(oxidd_core::verif::site::RETAIN, &[ptr.as_ptr().addr()]);
             Edge(edge.0, PhantomData)
         } else {
             TM::clone_edge(edge)
@@ -911,6 +915,8 @@ where
     #[track_caller]
     #[inline(always)]
     fn level(&self, no: LevelNo) -> Self::LevelView<'_> {
+        #[cfg(oxidd_verif)]
+        oxidd_core::verif::emit(oxidd_core::verif::site::LEVEL_LOCK, &[no as usize]);
         LevelView {
             store: self.store(),
             var_level_map: &self.var_level_map,
@@ -972,9 +978,13 @@ where
         }
 
         let mut collected = 0;
+        #[cfg(oxidd_verif)]
+        oxidd_core::verif::emit(oxidd_core::verif::site::GC_BEGIN, &[]);
         for level in &self.unique_table {
             let mut level = level.lock();
             collected += level.len();
+            #[cfg(oxidd_verif)]
+            oxidd_core::verif::emit(oxidd_core::verif::site::GC_LEVEL, &[]);
             // SAFETY: We prepared the garbage collection, hence there are no
             // "weak" edges.
             unsafe { level.gc() };
@@ -986,6 +996,8 @@ where
             // SAFETY: We called `pre_gc`, the garbage collection is done.
             unsafe { self.data.post_gc(self) };
         }
+        #[cfg(oxidd_verif)]
+        oxidd_core::verif::emit(oxidd_core::verif::site::GC_END, &[]);
         self.gc_ongoing.unlock();
         guard.defuse();
         collected
@@ -1301,6 +1313,15 @@ where
         insert: impl FnOnce(N) -> AllocResult<[Edge<'id, N, ET, TAG_BITS>; 2]>,
     ) -> AllocResult<Edge<'id, N, ET, TAG_BITS>> {
         let hash = hash_node(&node);
+        #[cfg(oxidd_verif)]
+        let mut verif_event: Vec<usize> = {
+            let mut v = vec![0usize];
+            for c in node.children() {
+                v.push(oxidd_core::Edge::node_id(&*c));
+                v.push(oxidd_core::Edge::tag(&*c).as_usize());
+            }
+            v
+        };
         // SAFETY (next 2): The hash table only contains untagged edges
         // referencing inner nodes.
         match self
@@ -1308,6 +1329,12 @@ where
             .find_or_find_insert_slot(hash, unsafe { Self::eq(&node) })
         {
             Ok(slot) => {
+                #[cfg(oxidd_verif)]
+                {
+                    // SAFETY: `slot` was returned by `find_or_find_insert_slot`.
+                    verif_event[0] = oxidd_core::Edge::node_id(unsafe { self.0.get_at_slot_unchecked(slot) });
+                    oxidd_core::verif::emit(oxidd_core::verif::site::GOI_FOUND, &verif_event);
+                }
                 node.drop_with(|edge| {
                     if edge.is_inner() {
                         // SAFETY: `edge` points to an inner node
@@ -1324,6 +1351,11 @@ where
             }
             Err(slot) => {
                 let [e1, e2] = insert(node)?;
+                #[cfg(oxidd_verif)]
+                {
+                    verif_event[0] = oxidd_core::Edge::node_id(&e2);
+                    oxidd_core::verif::emit(oxidd_core::verif::site::GOI_NEW, &verif_event);
+                }
                 // SAFETY: `slot` was returned by `find_or_find_insert_slot`.
                 // We have exclusive access to the hash table and did not modify
                 // it in between.
@@ -1347,6 +1379,8 @@ where
                 unsafe { edge.inner_node_unchecked() }.load_rc(Acquire) != 1
             },
             |edge| {
+                #[cfg(oxidd_verif)]
+                oxidd_core::verif::emit(oxidd_core::verif::site::GC_REMOVE, &[edge.addr()]);
                 // SAFETY: Since `rc` is 1, this is the last reference. We use
                 // `Acquire` order above and `Release` order when decrementing
                 // reference counters, so we have exclusive node access now.
@@ -1505,6 +1539,8 @@ where
         node.assert_level_matches(self.level);
         // No need to check if the children of `node` are stored in `self.store`
         // due to lifetime restrictions.
+        #[cfg(oxidd_verif)]
+        oxidd_core::verif::emit(oxidd_core::verif::site::GOI_LEVEL, &[self.level as usize]);
         LevelViewSet::get_or_insert(&mut *self.set, node, |node| add_node(self.store, node))
     }
 
@@ -1515,6 +1551,8 @@ where
     ) -> AllocResult<Edge<'id, N, ET, TAG_BITS>> {
         // No need to check if the children of `node` are stored in `self.store`
         // due to lifetime restrictions.
+        #[cfg(oxidd_verif)]
+        oxidd_core::verif::emit(oxidd_core::verif::site::GOI_LEVEL, &[self.level as usize]);
         LevelViewSet::get_or_insert(&mut *self.set, node, |node| add_node(self.store, node))
     }
 
@@ -1653,6 +1691,8 @@ where
         node.assert_level_matches(self.level);
         // No need to check if the children of `node` are stored in `self.store`
         // due to lifetime restrictions.
+        #[cfg(oxidd_verif)]
+        oxidd_core::verif::emit(oxidd_core::verif::site::GOI_LEVEL, &[self.level as usize]);
         self.set
             .get_or_insert(node, |node| add_node(self.store, node))
     }
@@ -1664,6 +1704,8 @@ where
     ) -> AllocResult<Edge<'id, N, ET, TAG_BITS>> {
         // No need to check if the children of `node` are stored in `self.store`
         // due to lifetime restrictions.
+        #[cfg(oxidd_verif)]
+        oxidd_core::verif::emit(oxidd_core::verif::site::GOI_LEVEL, &[self.level as usize]);
         self.set
             .get_or_insert(node, |node| add_node(self.store, node))
     }
@@ -2115,6 +2157,8 @@ impl<
         if edge.is_inner() {
             edge.0 = edge.all_untagged_ptr();
             unsafe { edge.inner_node_unchecked() }.retain();
+            #[cfg(oxidd_verif)]
+            oxidd_core::verif::emit(oxidd_core::verif::site::RETAIN, &[edge.addr()]);
         } else {
             std::mem::forget(TMC::T::<'static>::clone_edge(&*edge));
         }
